@@ -24,6 +24,9 @@ def run(ctx):
     E.r_singleuse_bits(prog, rep)
     E.r_request_flags(prog, rep)
     E.r_invalid_window(prog, rep)
+    E.r_cancel_clears(prog, rep)      # what a cancelled build leaves in memory is what the next build on this engine starts from
+    E.r_cancel_on_exit(prog, rep)
+    E.r_prior_value_guard(prog, rep)
     E.r_epoch_persist(prog, rep)
     E.r_state_order(prog, rep)
     E.r_parallel_vectors(prog, rep)
